@@ -45,20 +45,26 @@ def _mk(name, *fields):
 OpKey = _mk("OpKey", ("ok_op", z3.IntSort()), ("ok_a", Obj), ("ok_b", Obj))
 UPair = _mk("UPair", ("up_a", Obj), ("up_b", Obj))
 RateKey = _mk("RateKey", ("rk_v", Validity), ("rk_c", Obj))
-VecSort = z3.ArraySort(Obj, z3.IntSort())
+# dimension vectors: elements of the free abelian group over base elements,
+# as an uninterpreted sort with the group operations as function symbols; the
+# few group facts the proofs need are ground instances (lemma library, A3)
+VecSort = z3.DeclareSort("Vec")
 Den = _mk("Den", ("den_num", z3.RealSort()), ("den_vec", VecSort))
 
-ZERO_VEC = z3.K(Obj, z3.IntVal(0))
+ZERO_VEC = z3.Const("vzero", VecSort)
+vadd = z3.Function("vadd", VecSort, VecSort, VecSort)
+vscale = z3.Function("vscale", VecSort, z3.IntSort(), VecSort)
+vunit = z3.Function("vunit", Obj, VecSort)
 
 
 def unit_vec(o):
-    return z3.Store(ZERO_VEC, o, z3.IntVal(1))
+    return vunit(o)
 
 
 # dict kinds: name -> (key sort, value type)
 DICT_KINDS: Dict[str, Tuple[Any, Any]] = {
     "sym": (z3.StringSort(), TObj("Unit")),
-    "op": (OpKey, TTuple((TRat(), TOpt(TObj("Unit"))))),
+    "op": (OpKey, TOpt(TTuple((TRat(), TOpt(TObj("Unit")))))),
     "den": (Den, TInt()),
     "upair": (UPair, TTuple((TRat(), TRat()))),
     "rate": (RateKey, TObj("ExchangeRate")),
